@@ -462,6 +462,77 @@ theorem run_inv (ops : List COp) (c : RCache) (hi : c.Inv) : (c.run ops).Inv ∧
     obtain ⟨a2, b2⟩ := ih (c.step o) a
     exact ⟨a2, b2.trans b⟩
 
+/-! ### what a round trip can add to the cache -/
+
+theorem popWhile_allSub (p : CEntry → Int → Bool) (l all : List CEntry) (size : Int) :
+    ∀ e ∈ (popWhile p l all size).2.1, e ∈ all := by
+  induction l generalizing all size with
+  | nil => intro e he; exact he
+  | cons h t ih =>
+    intro e he
+    unfold popWhile at he
+    split at he
+    · exact eraseEntry_sub h all e (ih _ _ e he)
+    · exact he
+
+theorem insert_all (c : RCache) (k m q : Bytes) (s : Nat) (t : Int) :
+    ∀ x ∈ (c.insert k m q s t).all, x ∈ c.all ∨ x = { id := c.nextId, key := k, method := m, query := q, size := s, exp := t } := by
+  intro x hx
+  unfold RCache.insert at hx
+  simp only at hx
+  split at hx
+  · left; exact hx
+  · rcases List.mem_append.mp hx with h | h
+    · left; exact popWhile_allSub _ _ _ _ x h
+    · right; simpa using h
+
+theorem get_allSub (c : RCache) (now : Int) (k m q : Bytes) : ∀ x ∈ (c.get now k m q).1.all, x ∈ c.all :=
+  fun x hx => popWhile_allSub _ _ _ _ x hx
+
+theorem rtMiss_all (c : RCache) (now mc : Int) (k m q : Bytes) (i : Inner) :
+    ∀ x ∈ (c.rtMiss now mc k m q i).1.all, x ∈ c.all ∨
+      (m = sGET ∧ x.key = k ∧ x.method = m ∧ x.query = q ∧ x.exp ≤ now + mc ∧ ∃ size t, i = .resp size (some t) ∧ x.size = size ∧ x.exp ≤ t) := by
+  intro x hx
+  unfold RCache.rtMiss at hx
+  cases i with
+  | fail => left; exact hx
+  | resp size cacheable =>
+    simp only at hx
+    split at hx
+    · left; exact hx
+    · rename_i hm
+      cases cacheable with
+      | none => left; exact hx
+      | some t =>
+        simp only at hx
+        rcases insert_all c k m q size _ x hx with h | h
+        · left; exact h
+        · right
+          have hm' : m = sGET := by simpa using hm
+          subst h
+          refine ⟨hm', rfl, rfl, rfl, ?_, size, t, rfl, rfl, ?_⟩
+          · show (if t > now + mc then now + mc else t) ≤ now + mc
+            split <;> omega
+          · show (if t > now + mc then now + mc else t) ≤ t
+            split <;> omega
+
+theorem roundTrip_all (c : RCache) (now mc : Int) (k m q : Bytes) (i : Inner) :
+    ∀ x ∈ (c.roundTrip now mc k m q i).1.all, x ∈ c.all ∨
+      (m = sGET ∧ x.key = k ∧ x.method = m ∧ x.query = q ∧ x.exp ≤ now + mc ∧ ∃ size t, i = .resp size (some t) ∧ x.size = size ∧ x.exp ≤ t) := by
+  intro x hx
+  unfold RCache.roundTrip at hx
+  split at hx
+  · split at hx
+    · rename_i c1 e heq
+      left
+      have := get_allSub c now k m q x (by rw [heq]; exact hx)
+      exact this
+    · rename_i c1 heq
+      rcases rtMiss_all c1 now mc k m q i x hx with h | h
+      · left; exact get_allSub c now k m q x (by rw [heq]; exact h)
+      · right; exact h
+  · exact rtMiss_all c now mc k m q i x hx
+
 /-! ### did:key (vdr/didkey/resolver.go) -/
 
 /-- acceptance is sound w.r.t. the table: an accepted identifier starts with `z`, decodes, carries a codec of the table
